@@ -9,6 +9,7 @@ pub mod c04;
 pub mod c05;
 pub mod c06;
 pub mod c07;
+pub mod c10;
 pub mod c11;
 pub mod c12;
 pub mod c14;
@@ -18,7 +19,7 @@ pub mod c19;
 pub mod c20;
 pub mod gprog;
 
-pub const ALL: &[&str] = &["C01", "C02", "C03", "C04", "C05", "C06", "C07", "C11", "C12", "C14", "C15", "C16", "C19", "C20"];
+pub const ALL: &[&str] = &["C01", "C02", "C03", "C04", "C05", "C06", "C07", "C10", "C11", "C12", "C14", "C15", "C16", "C19", "C20"];
 
 pub fn intern(id: &str) -> Option<&'static str> {
     ALL.iter().copied().find(|p| *p == id)
@@ -40,6 +41,7 @@ pub fn meta(prop: &str) -> Option<Meta> {
         "C05" => Some(c05::meta()),
         "C06" => Some(c06::meta()),
         "C07" => Some(c07::meta()),
+        "C10" => Some(c10::meta()),
         "C11" => Some(c11::meta()),
         "C12" => Some(c12::meta()),
         "C14" => Some(c14::meta()),
@@ -60,6 +62,7 @@ pub fn spaces(prop: &str, tier: Tier, seed: u64) -> Vec<Box<dyn Space>> {
         "C05" => c05::spaces(tier, seed),
         "C06" => c06::spaces(tier, seed),
         "C07" => c07::spaces(tier, seed),
+        "C10" => c10::spaces(tier, seed),
         "C11" => c11::spaces(tier, seed),
         "C12" => c12::spaces(tier, seed),
         "C14" => c14::spaces(tier, seed),
